@@ -121,7 +121,7 @@ fn replay() {
        'r#"%s"#' % dump if verdict == 'ok' else '""')
     res = native_test(world, 'dns-types', 'crates/dns-types/src/protocol/deserialise.rs', src, 'replay')
     path = save_replay(pid, name, src, {'bytes': data, 'tag': viol.get('tag'), 'detail': viol.get('detail')})
-    failed = [p for p, (okk, txt) in res.items() if okk is False and 'VERIF-VIOLATED' in txt]
+    failed = [p for p, (okk, txt) in res.items() if okk is False and ('VERIF-VIOLATED' in txt or 'panicked at' in txt)]
     broken = [p for p, (okk, txt) in res.items() if okk is None]
     if broken: return None, path, 'replay build/run problem: ' + res[broken[0]][1][-500:]
     return (len(failed) > 0), path, '; '.join(f'{p}: {"FAILED" if okk is False else "passed"}' for p, (okk, _) in res.items())
@@ -231,6 +231,17 @@ def install_recursion_monitor(ex, w):
     return dfn
 
 
+def cross_validate(world, crate, host, src, n):
+    """run a table test natively (dev profile); -> (checked, mismatches, text)"""
+    res = native_test(world, crate, host, src, 'replay', release=False)
+    okk, txt = res.get('dev', (None, ''))
+    import re as _re
+    m = _re.search(r'VERIF-CHECKED (\d+) mismatches (\d+)', txt)
+    if not m: return 0, 0, 'cross-validation test did not run: ' + txt[-400:]
+    mism = [l for l in txt.split('\n') if 'VERIF-MISMATCH' in l]
+    return int(m.group(1)), int(m.group(2)), '; '.join(mism[:3])
+
+
 class MsgHarness(Harness):
     """Message::from_octets on `n` bytes; `fixed`: concrete byte values; `assume_fn(ex, bs)`: extra assumptions"""
     fixed = None; assume_fn = None; minlen = None
@@ -264,11 +275,30 @@ class MsgHarness(Harness):
             else:
                 ex.require(vn == 'CompletelyBusted' and got.variant == 0, 'err-id', 'short input must give CompletelyBusted')
             ex.require(ref is None, 'ref-mismatch', f'implementation rejects ({vn}) what the reference accepts')
-            return {'cls': 'Err:' + vn, 'sample': {'len': n, 'bytes': model_bytes(ex.get_model(), n, 'b', self.fixed), 'result': 'Err ' + vn, 'reference': rerr}}
+            mb = model_bytes(ex.get_model(), n, 'b', self.fixed)
+            return {'cls': 'Err:' + vn, 'vs': (mb, 'Err:' + vn), 'sample': {'len': n, 'bytes': mb, 'result': 'Err ' + vn, 'reference': rerr}}
         ex.require(ref is not None, 'ref-mismatch', f'implementation accepts what the reference rejects: {rerr}')
         compare_msg(ex, w, r.fields[0].v, ref)
         nq = len(ref['q']); nr = sum(len(s) for s in ref['rr'])
-        return {'cls': 'Ok', 'sample': {'len': n, 'bytes': model_bytes(ex.get_model(), n, 'b', self.fixed), 'result': f'Ok questions={nq} records={nr}'}}
+        mb = model_bytes(ex.get_model(), n, 'b', self.fixed)
+        return {'cls': 'Ok', 'vs': (mb, 'Ok'), 'sample': {'len': n, 'bytes': mb, 'result': f'Ok questions={nq} records={nr}'}}
+
+    def native_validate(self, world, vsamples):
+        rows = ',\n'.join('(&[%s][..], "%s")' % (', '.join(map(str, b)), c) for b, c in vsamples)
+        src = '''use super::*;
+#[test]
+fn replay() {
+    let cases: Vec<(&[u8], &str)> = vec![%s];
+    let mut bad = 0;
+    for (i, (b, want)) in cases.iter().enumerate() {
+        let got = match Message::from_octets(b) { Ok(_) => "Ok".to_string(), Err(e) => { let d = format!("{e:?}"); format!("Err:{}", d.split('(').next().unwrap()) } };
+        if &got != want { bad += 1; println!("VERIF-MISMATCH case {i}: interpreter {want}, native {got}, bytes {b:?}"); }
+    }
+    println!("VERIF-CHECKED {} mismatches {}", cases.len(), bad);
+    assert!(bad == 0);
+}
+''' % rows
+        return cross_validate(world, 'dns-types', 'crates/dns-types/src/protocol/deserialise.rs', src, len(vsamples))
 
     def finding_key(self, v): return f"C03 from_octets {v.get('tag')}"
 
@@ -301,14 +331,32 @@ class NameHarness(Harness):
             vn, e = err_variant(w, r)
             ex.require(ref is None, 'ref-mismatch', f'implementation rejects ({vn}) a name the reference accepts')
             smp['result'] = 'Err ' + vn
-            return {'cls': 'Err:' + vn, 'sample': smp}
+            return {'cls': 'Err:' + vn, 'vs': (smp['bytes'], start, 'Err:' + vn), 'sample': smp}
         ex.require(ref is not None, 'ref-mismatch', f'implementation accepts a name the reference rejects: {rerr}')
         dn = r.fields[0].v
         ex.require(labels_eq(name_labels(w, dn), ref), 'ref-mismatch', 'labels differ')
         ex.require(name_wf(w, dn), 'name-invariant', 'decoded name violates the DomainName invariant')
         ex.require(int_eq(cb.fields[1].v, Int(rd.pos, 'usize')), 'ref-mismatch', 'bytes consumed differ')
         smp['result'] = 'Ok labels=%d depth=%d' % (len(ref), ex.maxdepth)
-        return {'cls': 'Ok-ptr' if ex.env.get('hops') else 'Ok', 'sample': smp}
+        return {'cls': 'Ok-ptr' if ex.env.get('hops') else 'Ok', 'vs': (smp['bytes'], start, 'Ok'), 'sample': smp}
+
+    def native_validate(self, world, vsamples):
+        rows = ',\n'.join('(&[%s][..], %d, "%s")' % (', '.join(map(str, b)), st, c) for b, st, c in vsamples)
+        src = '''use super::*;
+#[test]
+fn replay() {
+    let cases: Vec<(&[u8], usize, &str)> = vec![%s];
+    let mut bad = 0;
+    for (i, (b, start, want)) in cases.iter().enumerate() {
+        let mut buf = ConsumableBuffer::new(b).at_offset(*start);
+        let got = match DomainName::deserialise(7, &mut buf) { Ok(_) => "Ok".to_string(), Err(e) => { let d = format!("{e:?}"); format!("Err:{}", d.split('(').next().unwrap()) } };
+        if &got != want { bad += 1; println!("VERIF-MISMATCH case {i}: interpreter {want}, native {got}, bytes {b:?} start {start}"); }
+    }
+    println!("VERIF-CHECKED {} mismatches {}", cases.len(), bad);
+    assert!(bad == 0);
+}
+''' % rows
+        return cross_validate(world, 'dns-types', 'crates/dns-types/src/protocol/deserialise.rs', src, len(vsamples))
 
     def finding_key(self, v): return f"C03 DomainName::deserialise {v.get('tag')}"
 
@@ -342,7 +390,7 @@ fn replay() {
         path = save_replay('C03', self.name, src, {'bytes': data, 'start': start, 'tag': v.get('tag'), 'detail': v.get('detail')})
         broken = [p for p, (okk, txt) in res.items() if okk is None]
         if broken: return None, path, 'replay build/run problem: ' + res[broken[0]][1][-500:]
-        failed = [p for p, (okk, txt) in res.items() if okk is False and 'VERIF-VIOLATED' in txt]
+        failed = [p for p, (okk, txt) in res.items() if okk is False and ('VERIF-VIOLATED' in txt or 'panicked at' in txt)]
         return (len(failed) > 0), path, '; '.join(f'{p}: {"FAILED" if okk is False else "passed"}' for p, (okk, _) in res.items())
 
 
@@ -371,12 +419,19 @@ class BoundaryHarness(Harness):
             bs.append(lens[i]); bs.extend(Int(0x41 + (j % 26), 'u8') for j in range(min(n, 80) if n < 192 else 1))
             if n >= 64: break
         bs.append(Int(0, 'u8')); bs.extend([Int(0, 'u8')] * 2)
+        start = 0
+        if getattr(self, 'ptr', False):
+            # a second name: one literal label of symbolic length followed by a pointer to the name above
+            pl = ex.sym('prefix_len', 'u8'); ex.assume(z3.Or(*[pl.v == x for x in self.prefix_lens])); pc = ex.concretize(pl)
+            start = len(bs)
+            bs.append(pl); bs.extend(Int(0x61 + (j % 26), 'u8') for j in range(pc)); bs.extend([Int(0xC0, 'u8'), Int(0, 'u8')])
+            cl = cl + ['ptr-prefix %d' % pc]
         items = [Cell(b) for b in bs]
-        cb = mk_struct(w, 'ConsumableBuffer', octets=SliceRef(items, 0, len(items)), position=Int(0, 'usize'))
+        cb = mk_struct(w, 'ConsumableBuffer', octets=SliceRef(items, 0, len(items)), position=Int(start, 'usize'))
         dfn = install_recursion_monitor(ex, w)
         r = ex.call_fn(dfn, [Int(7, 'u16'), Ref(Cell(cb))])
         ex.monitors.clear()
-        rd = refdns.Rd(ex, bs, 0)
+        rd = refdns.Rd(ex, bs, start)
         try: ref = refdns.ref_name(ex, rd); rerr = None
         except RefErr as e: ref = None; rerr = str(e)
         smp = {'label_length_octets': cl}
@@ -388,10 +443,43 @@ class BoundaryHarness(Harness):
         dn = r.fields[0].v
         ex.require(labels_eq(name_labels(w, dn), ref), 'ref-mismatch', 'labels differ')
         ex.require(name_wf(w, dn), 'name-invariant', 'decoded name violates the DomainName invariant')
-        tot = sum(cl) + len(cl) + 1
+        tot = sum(len(l) for l in ref) + len(ref)
         return {'cls': 'Ok-255' if tot == 255 else 'Ok', 'sample': smp}
 
     def finding_key(self, v): return f"C03 DomainName::deserialise boundary {v.get('tag')}"
+
+    def replay(self, world, v):
+        m = v.get('model') or {}
+        cl = [m.get(f'l{i}', 0) for i in range(self.k)]
+        data = []
+        for n in cl:
+            data.append(n); data.extend(0x41 + (j % 26) for j in range(min(n, 80) if n < 192 else 1))
+            if n >= 64: break
+        data.extend([0, 0, 0]); start = 0
+        if getattr(self, 'ptr', False):
+            pc = m.get('prefix_len', self.prefix_lens[0]); start = len(data)
+            data.append(pc); data.extend(0x61 + (j % 26) for j in range(pc)); data.extend([0xC0, 0])
+        ex = Exec(world)
+        try:
+            rd = refdns.Rd(ex, [Int(b, 'u8') for b in data], start); ref = refdns.ref_name(ex, rd); ok_ = True
+        except RefErr: ok_ = False
+        src = '''use super::*;
+use crate::protocol::types::*;
+#[test]
+fn replay() {
+    let bytes: Vec<u8> = vec![%s];
+    let mut b = ConsumableBuffer::new(&bytes).at_offset(%d);
+    let r = DomainName::deserialise(7, &mut b);
+    assert!(r.is_ok() == %s, "VERIF-VIOLATED accepted={} but the reference says {}", r.is_ok(), %s);
+    if let Ok(n) = r { let t: usize = n.labels.len() + n.labels.iter().map(|l| l.len() as usize).sum::<usize>(); assert!(n.len == t && t <= 255, "VERIF-VIOLATED decoded name of {} octets (len field {})", t, n.len); }
+}
+''' % (', '.join(map(str, data)), start, 'true' if ok_ else 'false', 'true' if ok_ else 'false')
+        res = native_test(world, 'dns-types', 'crates/dns-types/src/protocol/deserialise.rs', src, 'replay')
+        path = save_replay('C03', self.name, src, {'label_lengths': cl, 'start': start})
+        broken = [p for p, (okk, txt) in res.items() if okk is None]
+        if broken: return None, path, 'replay build/run problem: ' + res[broken[0]][1][-500:]
+        failed = [p for p, (okk, txt) in res.items() if okk is False]
+        return (len(failed) > 0), path, '; '.join(f'{p}: {"FAILED" if okk is False else "passed"}' for p, (okk, _) in res.items())
 
 
 def harnesses(world, tier, seed):
@@ -412,5 +500,8 @@ def harnesses(world, tier, seed):
                         bounds={'labels': 1, 'length_octet': [0, 1, 62, 63, 64, 65, 0x7f, 0x80, 0xbf, 0xc0, 0xff]}, expected_classes=('Ok', 'Err:DomainLabelInvalid')),
         BoundaryHarness(name='name-255-boundary', k=4, lens=[60, 61, 62, 63],
                         bounds={'labels': 4, 'each_length': '60..63 symbolic', 'total': '245..257 around the 255 limit'}, expected_classes=('Ok', 'Ok-255', 'Err:DomainTooLong')),
+        BoundaryHarness(name='name-255-pointer-boundary', k=3, lens=[62, 63], ptr=True, prefix_lens=[58, 59, 60, 61, 62, 63],
+                        bounds={'first name': '3 labels of 62..63 octets', 'second name': 'one label of 58..63 octets followed by a pointer to the first', 'expanded total': '249..257 around the 255 limit'},
+                        expected_classes=('Ok', 'Ok-255', 'Err:DomainTooLong')),
     ]
-    return hs, (420 if q else 2700), None
+    return hs, (1500 if q else 5400), None
